@@ -626,7 +626,7 @@ fn build_filter(lhs: &AstNode, rhs: &AstNode) -> Result<Evaluator> {
         }
         _ => value_null!("only number or boolean indexes are allowed in filters"),
       },
-      other => value_null!("fatal error in filter with value: {}", other as Value),
+      other => value_null!("fatal error in filter with value: {}", operand_text(&other)),
     }
   }))
 }
@@ -754,7 +754,7 @@ fn build_eq(lhs: &AstNode, rhs: &AstNode) -> Result<Evaluator> {
     if let Some(result) = eval_ternary_equality(&lhv, &rhv) {
       Value::Boolean(result)
     } else {
-      value_null!("equal err '{}' =?= '{}'", lhv, rhv)
+      value_null!("equal err '{}' =?= '{}'", operand_text(&lhv), operand_text(&rhv))
     }
   }))
 }
@@ -1101,7 +1101,7 @@ fn build_instance_of(lhs: &AstNode, rhs: &AstNode) -> Result<Evaluator> {
           FeelType::Any => VALUE_TRUE,
           expected => Value::Boolean(value.type_of() == expected),
         },
-        other => value_null!("invalid value type in 'instance of': {}", other as Value),
+        other => value_null!("invalid value type in 'instance of': {}", operand_text(&other)),
       }
     } else {
       Value::Boolean(lhv.type_of() == rhv.type_of())
@@ -1561,7 +1561,7 @@ fn build_path(lhs: &AstNode, rhs: &AstNode) -> Result<Evaluator> {
             _ => value_null!("no such property in years and months duration"),
           }
         }
-        _ => value_null!("zzz lhv={}", lhv),
+        _ => value_null!("zzz lhv={}", operand_text(&lhv)),
       }
     }))
   } else {
